@@ -256,6 +256,7 @@ class Verifier:
             if mutate is not None:
                 fn = mutate(fn)
             rep.source = self.fe.consumed.get(target, {})
+            eng.local_types = {k: self.fe.parse_type(v, mi) for k, v in getattr(c, "local_types", {}).items()}
             self._fn_node = fn
             self._loops = [n for n in _ordered_loops(fn)]
             fi = 0
